@@ -621,9 +621,11 @@ func TestVerif_C03_h3cut(t *testing.T) {
 		}
 		if ze != nil && !ze.modelled {
 			// br / zstd: no container model — judged by the oracle alone
-			if !ok && class == "" && o.fx.ok && ze.enc == "zstd" && sc.send <= 3 {
+			if !ok && o.fx.ok && ze.enc == "zstd" && sc.send <= 3 {
+				if class == "" {
+					failures--
+				}
 				class = c03ZstdClass
-				failures--
 			}
 			s.Observe(fmt.Sprintf("h3z/%d/%s/%s", i, sc.name, ze.tag()), ok, class, !sc.complete, human, why)
 			continue
